@@ -162,6 +162,7 @@ def run(ctx):
     topo_emptied_then_partial(ctx)
     checkpoint_then_refit(ctx)
     reentrant_reset(ctx)
+    fit_gif_histories(ctx)
     e2e.base_histories(ctx, "C05", ctx.scale(150, 3000), ctx.scale(20, 80), fields=("labels", "cnt"))
 
 
@@ -417,3 +418,71 @@ def reentrant_reset(ctx):
         except Exception as e:
             cov.hit(f"reentrant:raised:{name}:{exc_enum(e)}")
             cov.case(key, False)
+
+
+GIF_FAMS = families.ELEM + ["DualVigilanceART", "TopoART"]
+
+
+def fit_gif_histories(ctx):
+    """`fit_gif` is a training entry point as well (BaseART's training loop with a frame drawn after every sample,
+    inherited by every clustering estimator): a history that contains it — on a new estimator, after a `fit` on the same
+    or on other data, followed by a `partial_fit` — leaves one label per sample presented since that call, labels that
+    index the categories, and counters equal to the label histogram (defect F45: the counters of the previous model
+    survived a `fit_gif`)."""
+    import random
+    import shutil
+    import tempfile
+    cov = ctx.cov
+    try:
+        import matplotlib
+        matplotlib.use("Agg")
+        import matplotlib.pyplot as plt
+    except Exception:
+        cov.hit("fit_gif:matplotlib-missing")
+        return
+    tmp = tempfile.mkdtemp(prefix="artv-gif-")
+    try:
+        for i in range(ctx.scale(10, 80)):
+            r = gen.rng_for(ctx.seed, "C05-fit-gif", i)
+            name = GIF_FAMS[i % len(GIF_FAMS)]
+            n = r.randint(3, 7)
+            for _ in range(24):
+                fam, rows = families.build(random.Random(r.random()), name, n)
+                if rows.arrs["X"].shape[1] >= 2 and (not fam.groups or fam.groups[0][1] == 2):
+                    break
+            else:
+                cov.hit("fit_gif:no-2d-instance")
+                continue
+            n = len(rows)
+            before = r.choice(["new", "fit-same", "fit-other", "fit-other"])
+            desc = dict(fam.describe(), rows=rows.tolist(), before=before)
+            X = rows.arrs["X"]
+            try:
+                est = fam.make()
+                if before == "fit-same":
+                    fam.fit(est, rows)
+                elif before == "fit-other":
+                    other = fam.fresh(r, r.randint(2, 9)) if fam.fresh else rows
+                    desc["fit_rows"] = other.tolist()
+                    fam.fit(est, other)
+                with quiet():
+                    est.fit_gif(X, filename=f"{tmp}/c{i}.gif", n_cluster_estimate=max(2 * n, 4), fps=50, **fam.kw())
+                plt.close("all")
+            except Exception as e:
+                plt.close("all")
+                cov.hit(f"fit_gif:raised:{name}:{exc_enum(e)}")
+                continue
+            cov.hit(f"fit_gif:{name}")
+            cov.hit(f"fit_gif:before={before}")
+            check_state(ctx, fam, est, n, desc, f"after fit_gif ({before})", scenario=":fit_gif")
+            try:
+                k = r.randint(1, n)
+                fam.pfit(est, rows.sl(0, k))
+                check_state(ctx, fam, est, n + k, dict(desc, then_partial_fit_rows=k), f"after fit_gif ({before}) then partial_fit rows 0:{k}",
+                            scenario=":fit_gif")
+                cov.hit("fit_gif:then-partial_fit")
+            except Exception as e:
+                cov.hit(f"fit_gif:partial_fit-raised:{exc_enum(e)}")
+            cov.case(("fit-gif", fam.spec, desc["rows"], before), True)
+    finally:
+        shutil.rmtree(tmp, ignore_errors=True)
